@@ -23,6 +23,7 @@ _resend = H("verifH_C01_resend", "L01.b resend under faults", T({"W":2,"wfaults"
 _outasm = ["pre-states are arbitrary states satisfying INV-out1/out2/seq of DESIGN 4.1 (counters < 2^62, 14-bit ring position free); the induction over histories is a paper step",
     "Persistence operations fail without effect; Load returns a private copy; net.Conn.Write contract as in C08"]
 S["C05"] = dict(title="Publishes and resends keep acceptance order; DUP marks only re-deliveries", technique=TECH+"; one/two operations from an arbitrary INV state, observed through resend", harnesses=[
+    H("verifH_C05_reconnectrace", "a publisher racing the read routine's reconnect, the Persistence and the connection being scheduling points: both return (no lock-order deadlock), the new connection carries CONNECT, the pending transfers in order, then the new publish at most once without DUP; observer", T({"light":1}, time_sec=900), T({"light":0}, time_sec=1800, maxpaths=1000000), ("new-after-old","end")),
     H("verifH_C05_concurrent", "bounded schedule exploration: two concurrent publishers on one level, <= k preemptions at channel operations: identifiers distinct, wire order = identifier order, whole packets only, tokens returned", T({"preempt":2,"wfaults":0}), T({"preempt":3,"wfaults":1}, time_sec=2400, maxpaths=3000000), ("both-written-in-order","end")),
     H("verifH_C05_order", "L05.a two consecutive accepts: stamps n, n+1, wire order = acceptance order, DUP per written flag", T({"W":1,"wfaults":1}), T({"W":2,"wfaults":2}, time_sec=1500)),
     _accept_light, _resend, _ack, _connect_light],
@@ -34,6 +35,7 @@ S["C17"] = dict(title="In-flight packet identifiers unique and bounded; excess g
     H("verifH_C17_ring", "L17.b next identifier differs from every in-flight one while fewer than 0x4000 are in flight (all wrap positions at once)"),
     H("verifH_C17_slots", "L17.d/L11.a startTx/endTx from arbitrary counter and registered keys"),
     H("verifH_C17_slotlimit", "L17.d slot exhaustion gives ErrMax without trace"),
+    H("verifH_C14_methods", "L17.d a Subscribe/Unsubscribe that returned (answered, refused, down, canceled, closed, write failed, abandoned, connection lost) holds no identifier slot", T({"wfaults":1,"storefaults":1}), T({"wfaults":2,"storefaults":1}), ("ok","classified","quit")),
     H("verifH_C02_adopt", "L17.e restart: counters rebuilt for every ring position incl. windows straddling the wrap; new publish does not collide", T({"shapes":6}), T({"shapes":10}, time_sec=2400), ("adopted","adopted-twice","drained","adopted-twice-pubrec")),
     _accept, _ack],
   assumptions=_outasm,
@@ -67,11 +69,13 @@ S["C04"] = dict(title="Exactly-once reception: delivered once per cycle, handsha
   assumptions=_inasm+["the documented BUG (marker Save failed and the process stopped before recovery) is outside, as the property says"],
   bounds={"quick":"<= 2 inbound packets per stream incl. retransmission of an owned identifier and PUBREL, identifiers free 16-bit","thorough":"as C06 thorough"},
   outside=["restart between delivery and marker Save (see C02 crash-point harness)","BigMessage-sized duplicates beyond 2B+1"])
-S["C07"] = dict(title="Inbound acknowledgements go out only after the application took ownership", technique=TECH+"; trace property of consecutive ReadSlices invocations", harnesses=[_c04steps, _stream, _stream1, _stream1b, _stream_pre],
+S["C07"] = dict(title="Inbound acknowledgements go out only after the application took ownership", technique=TECH+"; trace property of consecutive ReadSlices invocations", harnesses=[_c04steps, _stream, _stream1, _stream1b, _stream_pre,
+    H("verifH_C10_offline", "connection lost inside a packet or during the skip of an unread big message: the acknowledgement owed for a returned message is sent first on the next connection, none for a message never returned", reach=("offline","skipped-big-acked"))],
   assumptions=_inasm,
   bounds={"quick":"<= 2 inbound packets per stream, every return followed by one more ReadSlices","thorough":"as C06 thorough"},
   outside=["concurrent outbound requests (wire integrity is C08's token argument)","write failures of the acknowledgement itself (covered in C10's harness)"])
 S["C02"] = dict(title="Restart resumes exactly the unacknowledged set, at any stop point, repeatedly", technique=TECH+"; AdoptSession run on an arbitrary store content a stop can leave (ring positions, storage sequence numbers and List order free), observed through resend, two generations", harnesses=[
+    _accept_light,
     H("verifH_C02_adopt", "adopt an arbitrary PINV store -> observe; publish; stop; adopt again -> observe", T({"shapes":6}), T({"shapes":10}, time_sec=2400), ("adopted","adopted-twice","drained","adopted-twice-pubrec")),
     _compose,
     H("verifH_C02_crash", "crash points of the running process: stop right before each Persistence mutation of accept / PUBACK / PUBREC / PUBCOMP (or after the last); AdoptSession must resume the pending set as before or as after the operation, without warnings, completable", T({"W":2,"maxops":3}), T({"W":3,"maxops":4}, time_sec=2400), ("stopped-mid-operation","stopped-after-operation","end")),
@@ -114,7 +118,7 @@ S["C18"] = dict(title="Connection set-up: CONNECT first, clean session once, res
   assumptions=_outasm+["dialer returns the harness connection or an error; TLS and real dialers are not encoded",
     "the abort goroutine of dialAndConnect runs in the engine's cooperative scheduler; no cancellation in this harness (C12 covers it)",
     "write faults on packets longer than 3 bytes are case-split at offsets 0, 1 and len-1"],
-  bounds={"quick":"pending shapes {none, 1 QoS1, 1 PUBREL + 1 QoS2}, client id <= 1 byte, options {none, user+password, will}, reply 0..5 arbitrary bytes then EOF or silence, <= 1 write fault","thorough":"three configurations: 1 read cut x 1 write fault x 3 shapes; 2 write faults x 3 shapes; 1 write fault x 4 shapes (+ {2 QoS1, 1 PUBREL, 2 QoS2}); their product is outside (did not finish in 20 min)"},
+  bounds={"quick":"pending shapes {none, 1 QoS1 + 1 PUBREL, 1 PUBREL + 1 QoS2}, client id <= 1 byte, options {none, user+password, will}, reply 0..5 arbitrary bytes then EOF or silence, <= 1 write fault","thorough":"three configurations: 1 read cut x 1 write fault x 3 shapes; 2 write faults x 3 shapes; 1 write fault x 4 shapes (+ {2 QoS1, 1 PUBREL, 2 QoS2}); their product is outside (did not finish in 20 min)"},
   outside=["TLS / real net dialers","more than one reconnect in a row (each connect starts from an INV state)"])
 S["C10"] = dict(title="The read routine never wedges: failed connections are left and redialed", technique=TECH+"; polling loops bounded by unwinding, a loop that polls an unchanged state is a wedge", harnesses=[
     H("verifH_C10_foreignfailure", "L10.b another goroutine's write failure left connPending while the read routine owes PUBACK/PUBREC/PUBCOMP/PUBREL: ReadSlices must return or redial", T({"spin":24}), T({"spin":48}), ("redialed",)),
@@ -128,7 +132,7 @@ S["C10"] = dict(title="The read routine never wedges: failed connections are lef
   outside=["true liveness under an adversarial scheduler","wall-clock promptness"])
 S["C12"] = dict(title="Close and Disconnect end the client from any state, promptly and for good", technique=TECH+"; cooperative goroutine model with deadlock detection", harnesses=[
     H("verifH_C12_closeduringhandshake", "L12.b Close/Disconnect issued while the handshake reads CONNACK: both return, no goroutine left, signals and semaphores final", reach=("closed",)),
-    H("verifH_C12_states", "L12.a/c Close/Disconnect from each sequential state (with pending transfers, a persisted publish whose submission error is unread, a pending subscribe), then every method reports ErrClosed; termCallbacks", T({"wfaults":0}), T({"wfaults":1}, time_sec=2400), ("closed","api-exchange")),
+    H("verifH_C12_states", "L12.a/c Close/Disconnect from each sequential state (with pending transfers, a persisted publish whose submission error is unread, a pending subscribe), then every method reports ErrClosed; termCallbacks", T({"wfaults":1}), T({"wfaults":1}, time_sec=2400), ("closed","api-exchange")),
     H("verifH_C12_concurrent", "bounded schedule exploration: Close || Close/Disconnect(nil)/Disconnect(closed quit) || a writer in flight (Write is a scheduling point), <= k preemptions: all return, semaphores closed once, signals final, DISCONNECT last", T({"preempt":1}), T({"preempt":2}, time_sec=2400, maxpaths=3000000), ("end","interrupted")),
   ],
   assumptions=["goroutines are scheduled cooperatively: switches at channel operations, mutexes, explicit yields; interleavings are forked at each point where more than one goroutine can run"],
